@@ -264,7 +264,7 @@ fn dispatch<E: Elem, R: Runner<E>>(kind: &str, values: Vec<i32>, r: R) -> (R::Ou
 #[derive(Clone, Debug)]
 enum BOp {
     Push(i32), Pop, Get(usize), Gm(usize, i32), Ix(usize), Ixm(usize, i32),
-    Len, Empty, Full, Max, Iter, Slices, Im(Vec<i32>), Sm(Vec<i32>), Drain(usize), DrainNth(usize), Ext(Vec<i32>), Raw, Data,
+    Len, Empty, Full, Max, Iter, Slices, Im(Vec<i32>), Sm(Vec<i32>), Drain(usize), DrainNth(usize), /* the draining iterator leaked (mem::forget) after k items */ DrainLeak(usize), Ext(Vec<i32>), Raw, Data,
 }
 
 impl BOp {
@@ -274,7 +274,7 @@ impl BOp {
             BOp::Gm(i, x) => format!("gm:{}:{}", i, x), BOp::Ix(i) => format!("ix:{}", i), BOp::Ixm(i, x) => format!("ixm:{}:{}", i, x),
             BOp::Len => "len".into(), BOp::Empty => "empty".into(), BOp::Full => "full".into(), BOp::Max => "max".into(),
             BOp::Iter => "iter".into(), BOp::Slices => "slices".into(), BOp::Im(xs) => format!("im:{}", csv(xs)),
-            BOp::Sm(xs) => format!("sm:{}", csv(xs)), BOp::Drain(k) => format!("drain:{}", k), BOp::DrainNth(k) => format!("dnth:{}", k), BOp::Ext(xs) => format!("ext:{}", csv(xs)),
+            BOp::Sm(xs) => format!("sm:{}", csv(xs)), BOp::Drain(k) => format!("drain:{}", k), BOp::DrainNth(k) => format!("dnth:{}", k), BOp::DrainLeak(k) => format!("dleak:{}", k), BOp::Ext(xs) => format!("ext:{}", csv(xs)),
             BOp::Raw => "raw".into(), BOp::Data => "data".into(),
         }
     }
@@ -282,7 +282,7 @@ impl BOp {
         match self {
             BOp::Push(_) => "push", BOp::Pop => "pop", BOp::Get(_) => "get", BOp::Gm(..) => "get_mut", BOp::Ix(_) => "index",
             BOp::Ixm(..) => "index_mut", BOp::Len => "len", BOp::Empty => "is_empty", BOp::Full => "is_full", BOp::Max => "max_len",
-            BOp::Iter => "iter", BOp::Slices => "slices", BOp::Im(_) => "iter_mut", BOp::Sm(_) => "slices_mut", BOp::Drain(_) => "drain", BOp::DrainNth(_) => "drain_nth",
+            BOp::Iter => "iter", BOp::Slices => "slices", BOp::Im(_) => "iter_mut", BOp::Sm(_) => "slices_mut", BOp::Drain(_) => "drain", BOp::DrainNth(_) => "drain_nth", BOp::DrainLeak(_) => "drain_leaked",
             BOp::Ext(_) => "extend", BOp::Raw | BOp::Data => "raw_parts",
         }
     }
@@ -349,6 +349,13 @@ fn exec_b<S: SliceMut<Element = i32>>(slot: &mut Option<Bounded<S>>, op: &BOp, e
             Seen::List(d.take(*k).collect())
         }
         BOp::DrainNth(k) => Seen::Opt(rb.drain().nth(*k)),
+        BOp::DrainLeak(k) => {
+            // what was handed out is gone from the queue whether or not the iterator's destructor ever runs
+            let mut d = rb.drain();
+            let v: Vec<i32> = d.by_ref().take(*k).collect();
+            std::mem::forget(d);
+            Seen::List(v)
+        }
         BOp::Ext(xs) => { rb.extend(xs.iter().copied()); Seen::Unit }
         BOp::Raw | BOp::Data => unreachable!(),
     });
@@ -454,6 +461,11 @@ fn ideal_b(id: &mut IdealQ, op: &BOp, seen: &Seen) -> Result<(), (String, String
             for _ in 0..*k { match id.q.pop_front() { Some(v) => out.push(v), None => break } }
             want(Seen::List(out), "drain must yield the oldest elements in order, removing exactly those yielded")
         }
+        BOp::DrainLeak(k) => {
+            let mut out = vec![];
+            for _ in 0..*k { match id.q.pop_front() { Some(v) => out.push(v), None => break } }
+            want(Seen::List(out), "a draining iterator leaked after k items must have removed exactly the k items it yielded")
+        }
         BOp::DrainNth(k) => {
             let mut last = None;
             for _ in 0..=*k { last = id.q.pop_front(); if last.is_none() { break; } }
@@ -482,7 +494,7 @@ fn ideal_b(id: &mut IdealQ, op: &BOp, seen: &Seen) -> Result<(), (String, String
 }
 
 fn mutating_b(op: &BOp) -> bool {
-    matches!(op, BOp::Push(_) | BOp::Pop | BOp::Gm(..) | BOp::Ixm(..) | BOp::Im(_) | BOp::Sm(_) | BOp::Drain(_) | BOp::DrainNth(_) | BOp::Ext(_))
+    matches!(op, BOp::Push(_) | BOp::Pop | BOp::Gm(..) | BOp::Ixm(..) | BOp::Im(_) | BOp::Sm(_) | BOp::Drain(_) | BOp::DrainNth(_) | BOp::DrainLeak(_) | BOp::Ext(_))
 }
 
 struct Vals(i32);
@@ -544,7 +556,7 @@ fn case_b(st: &mut Stream, kind: &str, ctor: BCtor, data: &[i32], ops: &[BOp]) {
                     if *s == Seen::Panic { st.count("op_panic"); }
                     if let Seen::Raw(s0, _, _) = s { if *s0 != 0 { moved = true; } }
                     let full_before = id.q.len() == cap;
-                    match op { BOp::Push(_) if full_before => { moved = true; st.count("push_evicting"); } BOp::Pop | BOp::Drain(_) | BOp::DrainNth(_) if !id.q.is_empty() => moved = true, _ => {} }
+                    match op { BOp::Push(_) if full_before => { moved = true; st.count("push_evicting"); } BOp::Pop | BOp::Drain(_) | BOp::DrainNth(_) | BOp::DrainLeak(_) if !id.q.is_empty() => moved = true, _ => {} }
                     match ideal_b(&mut id, op, s) {
                         Ok(()) => n_ok += 1,
                         Err((what, expected)) => {
@@ -573,13 +585,14 @@ fn alphabet_b(sym: usize, cap: usize, v: &mut Vals) -> BOp {
         3 => BOp::Ixm(0, v.next()),
         4 => BOp::Drain(2),
         8 => BOp::DrainNth(1),
+        9 => BOp::DrainLeak(1),
         5 => BOp::Ext(v.take(2)),
         6 => BOp::Im(v.take(1)),
         7 => BOp::Sm(v.take(cap + 1)),
         _ => unreachable!(),
     }
 }
-const NSYM_B: usize = 9;
+const NSYM_B: usize = 10;
 
 fn run_bounded(a: &Args) {
     open_current(&a.out);
@@ -615,7 +628,7 @@ fn run_bounded(a: &Args) {
         }
     }
     st.count_n("exhaustive_states_cap_le_4", 40);
-    st.note(&format!("exhaustive part: all 40 (capacity<=4,start,len) states x all {}^{} sequences over the mutating alphabet {{push,pop,get_mut(1),index_mut(0),drain.take(2),drain.nth(1),extend(2),iter_mut write 1,slices_mut write cap+1}}, every read-only view after every op", NSYM_B, depth));
+    st.note(&format!("exhaustive part: all 40 (capacity<=4,start,len) states x all {}^{} sequences over the mutating alphabet {{push,pop,get_mut(1),index_mut(0),drain.take(2),drain.nth(1),drain leaked after 1,extend(2),iter_mut write 1,slices_mut write cap+1}}, every read-only view after every op", NSYM_B, depth));
 
     // ---- 2. all four storage kinds x all states x all sequences of length 2, plus from_full / From
     for kind in KINDS {
@@ -694,7 +707,7 @@ fn run_bounded(a: &Args) {
                 match rng.below(7) { 0 => 0, 1 => est, 2 => est.saturating_sub(1), 3 => cap, 4 => rng.usize_below(cap + 2), 5 => extreme_index(rng, cap, est, cap), _ => rng.usize_below(est.max(1)) }
             };
             let val = |rng: &mut Rng, v: &mut Vals| -> i32 { if rng.chance(1, 5) { rng.range(-50, 50) as i32 } else { v.next() } };
-            let op = match rng.below(24) {
+            let op = match rng.below(25) {
                 0..=4 => { if push_bias == 0 && rng.chance(1, 2) { BOp::Pop } else { BOp::Push(val(&mut rng, &mut v)) } }
                 5..=7 => { if push_bias == 2 && rng.chance(1, 2) { BOp::Push(val(&mut rng, &mut v)) } else { BOp::Pop } }
                 8 | 9 => BOp::Get(idx(&mut rng, est)),
@@ -710,11 +723,12 @@ fn run_bounded(a: &Args) {
                 21 => { let n = rng.usize_below(cap.min(6) + 2); BOp::Ext((0..n).map(|_| val(&mut rng, &mut v)).collect()) }
                 22 => BOp::Raw,
                 23 => BOp::DrainNth(if rng.chance(1, 8) { extreme_index(&mut rng, cap, est, 2) } else { rng.usize_below(est + 2) }),
+                24 => BOp::DrainLeak(rng.usize_below(est + 2)),
                 _ => BOp::Len,
             };
             match &op {
                 BOp::Push(_) => est = (est + 1).min(cap), BOp::Pop => est = est.saturating_sub(1),
-                BOp::Drain(k) => est = est.saturating_sub(*k), BOp::DrainNth(k) => est = est.saturating_sub(k.saturating_add(1)), BOp::Ext(xs) => est = (est + xs.len()).min(cap), _ => {}
+                BOp::Drain(k) | BOp::DrainLeak(k) => est = est.saturating_sub(*k), BOp::DrainNth(k) => est = est.saturating_sub(k.saturating_add(1)), BOp::Ext(xs) => est = (est + xs.len()).min(cap), _ => {}
             }
             ops.push(op);
         }
